@@ -434,6 +434,7 @@ const MUTATIONS: &[&str] = &[
     "key-replaced-by-attacker",
     "key-attacker-added-unsigned",
     "key-standby-added-signed",
+    "key-nonzone-added-signed",
     "key-revoked-resigned",
     "key-revoked-vouches-for-zsk",
     "keysig-remove",
@@ -609,6 +610,23 @@ fn mutate(rng: &mut Rng, b: &Base, z: &Zone, atk: &Attacker, m: &str) -> Option<
             let rdatas: Vec<Vec<u8>> = p.recs.iter().map(|r| r.rdata.clone()).collect();
             let owner = p.recs[0].owner.clone();
             p.sigs = vec![sign(&atk.key, 256, &z.name, &owner, p.qtype, &rdatas, p.sigs[0].f.labels, p.sigs[0].f.original_ttl, b.inception, b.expiration, p.recs[0].ttl, None)];
+        }
+        "key-nonzone-added-signed" => {
+            // as above, but the published second key is NOT a zone key (RFC 4034 2.1.1: Zone Key bit 7 clear
+            // => MUST NOT be used to verify RRSIGs over RRsets), whatever other (reserved) flag bits it
+            // carries; the keyset is honestly signed, the target is signed by that key: never Secure
+            const NONZONE: &[u16] = &[0x0000, 0x0001, 0x0200, 0x0201, 0x0400, 0x0800, 0x1000, 0x2000, 0x4000, 0x8000, 0x8001, 0xfe00, 0xfe7f, 0xfe01];
+            let mut flags = NONZONE[rng.usize_below(NONZONE.len())];
+            if rng.chance(1, 4) {
+                flags = (rng.below(0x1_0000) as u16) & !0x0100 & !0x0080;
+            }
+            let a = PKey { owner: z.name.clone(), ttl: 3600, flags, alg: atk.key.algorithm(), public: atk.key.dnskey_public() };
+            p.keys.push(a);
+            let key_rdatas: Vec<Vec<u8>> = p.keys.iter().map(|k| k.rdata()).collect();
+            p.key_sigs = vec![sign(&z.keys[0], z.flags[0], &z.name, &z.name, 48, &key_rdatas, refsign::label_count(&z.name) as u8, 3600, b.inception, b.expiration, 3600, None)];
+            let rdatas: Vec<Vec<u8>> = p.recs.iter().map(|r| r.rdata.clone()).collect();
+            let owner = p.recs[0].owner.clone();
+            p.sigs = vec![sign(&atk.key, flags, &z.name, &owner, p.qtype, &rdatas, p.sigs[0].f.labels, p.sigs[0].f.original_ttl, b.inception, b.expiration, p.recs[0].ttl, None)];
         }
         "key-revoked-resigned" | "key-revoked-vouches-for-zsk" => {
             // The anchored key is published with the REVOKE flag (RFC 5011 2.1) and everything is signed
